@@ -28,6 +28,8 @@ for p in props:
             focus = "FOCUS FOR THIS ATTEMPT: prefer one of these categories, whichever fits the code best: (a) a cache / memo / fast path filled by a READ-ONLY operation (query, walk, lookup, conversion, validation) that a later mutation does not invalidate, so that the breakage needs read -> mutate -> read; (b) an error or rejection path that leaves partial state behind (half-applied update, counter already bumped, entry already inserted) which only a LATER operation exposes; (c) a boundary between two representations of the same thing (path encodings, origin in prefix vs path, typed value arms, map vs list) where two code sites normalise differently."
     if wave >= 'w13':
         focus = "FOCUS FOR THIS ATTEMPT: prefer a change whose breakage needs a NON-DEFAULT option, configuration field or mode to be in use together with an otherwise ordinary operation sequence - an Option passed to a constructor (cache, subscribe server, manager, client), a field of a Config / Query / Target / SubscriptionList / fake-target configuration that is usually left at its zero value, a particular encoding or subscription mode, a flag of a command - so that everything behaves correctly with the defaults and in the existing tests. First list the options/fields/modes the anchored code supports and pick one that the existing tests barely exercise. The change itself should still be small and plausible."
+    if wave >= 'w14':
+        focus = "FOCUS FOR THIS ATTEMPT: look at the list of earlier attempts below and note which FILES they touched. Put your change into a file NONE of them touched - a helper or glue package that the anchored code depends on or that wires it into the running system (for example, depending on the property: path/, value/, errlist/, metadata/, latency/, coalesce/, match/, ctree/, connection/, target/, collector/, cmd/gnmi_collector/, cmd/gnmi_cli/, cli/, client/ (cache.go, query.go, notification handling), client/gnmi/, testing/fake/gnmi/ (agent, client), proto helpers) - so that the property breaks through a dependency or through the wiring rather than at the anchored site itself. Any mechanism is fine (interleaving, multi-step history, unusual input, option), as long as ordinary use and the existing tests do not expose it."
     prop_text = json.dumps({k: p[k] for k in ('id','title','statement','quantifier','why_tests_cant','anchors') if k in p}, indent=1)
     txt = f"""You are helping to evaluate a verification framework for the Go repository openconfig/gnmi (reference gNMI implementation: client library, CLI, caching collector with a timestamped path-tree cache and a Subscribe server). You have your OWN scratch git worktree of the repository at {wt} (a detached checkout of the current HEAD). Work ONLY inside {wt} and write your results to {out}/ . Never touch /repo or /verif and do not read anything under /verif.
 
